@@ -92,8 +92,17 @@ pub fn gen_c13(seed: u64, tier: &str) -> Value {
                 1 => {
                     // utf-16 declared, odd number of bytes
                     let mut b: Vec<u8> = "{\"x\": 1}".encode_utf16().flat_map(|u| u.to_le_bytes()).collect();
-                    if r.chance(2, 3) {
-                        b.push(0x41);
+                    if r.chance(1, 3) {
+                        b.insert(0, 0xfe); // byte order mark
+                        b.insert(0, 0xff);
+                    }
+                    match r.below(6) {
+                        0 => b.truncate(0), // degenerate lengths: nothing, half a code unit, one unit, one and a half
+                        1 => b.truncate(1),
+                        2 => b.truncate(2),
+                        3 => b.truncate(3),
+                        4 => b.push(0x41),
+                        _ => {}
                     }
                     json!({"f": "malformed", "body": latin1(&b), "ctype": "application/json; charset=utf-16"})
                 }
